@@ -50,8 +50,10 @@ def run(rep, tier, seed):
             chk.generate('deep11', deep_consts(11), cassettes=('memory', 'file', 's3'), n_conc=1, sample=150, cap=300,
                          invariants=['TypeOK', 'ReplayFaithful', 'SameOutputs'])
         else:
-            chk.check('chk', gen_consts(4, InCalls=[('ia1', 1), ('ia1', 2), ('ia2', 1), ('ia3', 0)],
-                                        Classes=[K('K1')]), invariants=INVS, timeout=3000)
+            chk.check('chk', gen_consts(3), invariants=INVS, timeout=3000)
+            chk.check('chk4', gen_consts(4, InCalls=[('ia1', 1), ('ia2', 1), ('ia2', 2)], OutAliases=['oa1'], Vals=['v1'], Bodies=['plain'],
+                                        Classes=[K('K1', copyOn=True)], OutResults=[('val', 'v1'), ('exc', 'E1')]),
+                      invariants=INVS, timeout=3000)
             ex = chk.generate('gen2', gen_consts(2), cassettes=('memory', 'file', 's3'), n_conc=4, all_paths=True,
                               cap=200000)
             chk.generate('gen3', gen_consts(3, Classes=[K('K1', copyOn=True)], Bodies=['plain'], Vals=['v1'],
